@@ -264,19 +264,24 @@ theorem C18_list_parts_exact (parts : List (Int × Bytes)) (hnd : keysNodup part
     · rintro ⟨c, hc, rfl⟩
       exact ⟨(n, c), hc, rfl⟩
 
-/-- complete_multipart_upload: the object becomes the concatenation of the listed parts in part order with the upload's
-    metadata, the upload is gone; an identity other than the creator gets `AccessDenied` and changes nothing; an upload that
-    does not exist — at all, or under this bucket and key (41e1cf2; before: fs:upload-not-bound-to-key) — is `NoSuchUpload`
-    on both sides (4609ab3); a complete by
-    the owner that names a part that was never uploaded (`InvalidPart`) or whose parts other than the last are below the
-    minimum size (`EntityTooSmall`) is answered alike and changes nothing — the upload stays and can be completed later
-    (before the repair the upload was consumed first: fs:failed-complete-consumes-upload, and a missing part was
-    `InternalError`: fs:complete-missing-part-internal-error); the metadata and the checksums of an object it replaces
-    are replaced with it — by the upload's metadata, or none, and by no checksums (47e9b00; before:
-    fs:stale-metadata-after-complete, fs:stale-checksum-after-complete); a complete that passes validation but whose bucket
-    no longer exists is `NoSuchBucket` on both sides and changes nothing — the bucket is not recreated, the upload stays
-    (b29f222; before: fs:complete-into-missing-bucket). Partial — excluded: part lists other than 1..m
-    (fs:complete-requires-consecutive-parts, fs:complete-part-list-validation) -/
+/-- complete_multipart_upload: the object becomes the concatenation of the listed parts — ANY strictly ascending selection
+    of the uploaded parts, with or without gaps in the numbers (fa59617; before, only `1, 2, …, m` was accepted:
+    fs:complete-requires-consecutive-parts) — in list (= ascending part-number) order, with the upload's metadata; the upload
+    is gone; an identity other than the creator gets `AccessDenied` and changes nothing; an upload that does not exist — at
+    all, or under this bucket and key (41e1cf2; before: fs:upload-not-bound-to-key) — is `NoSuchUpload` on both sides
+    (4609ab3). EVERY part list is inside the predicate, and a complete that fails validation is answered alike and changes
+    nothing — the upload stays and can be completed later (0096ef4; before the upload was consumed first:
+    fs:failed-complete-consumes-upload, and a missing part was `InternalError`: fs:complete-missing-part-internal-error) —
+    with the store's code, in the store's order (a00e4e8; before: fs:complete-part-list-validation): no part list or an
+    empty one `MalformedXML` (before anything else is looked at), then, for the owner, a part without a number
+    `MalformedXML`, numbers not strictly ascending (unordered, repeated) `InvalidPartOrder`, a listed part that was never
+    uploaded `InvalidPart`, a part other than the last listed below the minimum size `EntityTooSmall`; the metadata and the
+    checksums of an object it replaces are replaced with it — by the upload's metadata, or none, and by no checksums
+    (47e9b00; before: fs:stale-metadata-after-complete, fs:stale-checksum-after-complete); a complete that passes
+    validation but whose bucket no longer exists is `NoSuchBucket` on both sides and changes nothing — the bucket is not
+    recreated, the upload stays (b29f222; before: fs:complete-into-missing-bucket). Partial — what the predicate still
+    asks of a complete by the owner: admissible bucket name, canonical key, and for one that passes validation a free path
+    and side-file names that fit (fs:key-normalised, fs:leftover-directory, fs:long-key-internal-error) -/
 theorem C18_complete_refines_partial (H : Hashes) (dl : Nat) {s : State} (hi : Inv s) {who : Who} {b k : Bytes}
     {u : UploadRef} {parts : Option (List (Option Int))} (hg : CompleteOk s who b k u parts) :
     (step H dl s (.completeMultipartUpload who b k u parts)).2 =
@@ -285,23 +290,48 @@ theorem C18_complete_refines_partial (H : Hashes) (dl : Nat) {s : State} (hi : I
       (StoreSpec.step H (abs s) (.completeMultipartUpload who b k u parts)).1 ∧
     Inv (step H dl s (.completeMultipartUpload who b k u parts)).1 := complete_refines H dl hi hg
 
-/-- the validation of complete_multipart_upload over a part list `cnt+1, …, m` whose parts all exist yields them in part
-    order (what is then written is the concatenation of their contents, `cs.flatten`), its size rule is the store's
-    (`sizesOk`), and the final clean-up removes only part files of that upload; if a listed part does not exist the
-    validation answers `InvalidPart` -/
-theorem C18_complete_concatenates (id : Nat) (l : List (Option Int)) (cnt : Nat)
-    (parts : List ((Nat × Int) × Bytes)) (hc : ConsecFrom cnt l) :
-    match partsOf parts id l with
-    | some cs =>
-      ∃ ps, completeParts id parts l cnt = .ok ps ∧ (ps.map (·.2)).flatten = cs.flatten ∧
-        partTooSmall (cnt + l.length) ps = !sizesOk cs ∧ Erased id parts (eraseParts id (ps.map (·.1)) parts)
-    | none => completeParts id parts l cnt = .error .InvalidPart := by
-  cases hp : partsOf parts id l with
-  | none => exact completeParts_missing id parts l cnt hc hp
-  | some cs =>
-    have hlen : cs.length = l.length := by unfold partsOf at hp; exact optMapM_length _ _ _ hp
-    exact ⟨numbered cnt cs, completeParts_ok id parts l cnt cs hc hp, by rw [numbered_contents],
-      partTooSmall_numbered _ cs cnt (by omega), eraseParts_erased id _ parts⟩
+/-- the four validation passes of complete_multipart_upload, for EVERY part list, compute what the store prescribes: the
+    numbers it reads are the store's (a part without a number: none), its order test is the negation of the store's
+    "strictly ascending", and for any list of numbers `ns`: if every listed part exists, the third pass yields exactly the
+    listed numbers (`ps.map (·.1) = ns`: in list order, which is strictly ascending part-number order when the order test
+    passed, whatever gaps the numbers have), each paired with the content of its part file, what is then written is the
+    concatenation of these contents in that order (`cs.flatten`), the size rule is the store's (`sizesOk`: every part but
+    the last listed), and the final clean-up removes only part files of that upload; if a listed part does not exist the
+    third pass fails (`InvalidPart`) -/
+theorem C18_complete_concatenates (id : Nat) (pl : List (Option Int)) (parts : List ((Nat × Int) × Bytes)) :
+    partNumbers pl = pl.mapM (fun x => x) ∧
+    ∀ ns : List Int,
+      outOfOrder ns = !ascending ns ∧
+      (ascending ns = true → ns.Pairwise (· < ·)) ∧
+      match ns.mapM (fun n => alLookup (id, n) parts) with
+      | some cs =>
+        ∃ ps, partFiles id parts ns = some ps ∧ ps.map (·.1) = ns ∧ ps.map (·.2) = cs ∧
+          (∀ e ∈ ps, alLookup (id, e.1) parts = some e.2) ∧
+          (ps.map (·.2)).flatten = cs.flatten ∧ partTooSmall ps = !sizesOk cs ∧
+          Erased id parts (eraseParts id (ps.map (·.1)) parts)
+      | none => partFiles id parts ns = none := by
+  refine ⟨partNumbers_eq pl, fun ns => ⟨outOfOrder_eq ns, ascending_pairwise ns, ?_⟩⟩
+  have hpc := partFiles_contents id parts ns
+  cases hpf : partFiles id parts ns with
+  | none =>
+    rw [hpf] at hpc
+    rw [← hpc]
+    rfl
+  | some ps =>
+    rw [hpf] at hpc
+    rw [← hpc]
+    simp only [Option.map_some]
+    exact ⟨ps, rfl, partFiles_numbers id parts ns ps hpf, rfl, partFiles_mem id parts ns ps hpf, rfl,
+      partTooSmall_eq ps, eraseParts_erased id _ parts⟩
+
+/-- a part list with gaps passes: parts 2, 5, 9 uploaded (in another order) and listed `2, 5, 9` are concatenated in that
+    order; the same parts listed `5, 2` fail the order test -/
+example :
+    let parts : List ((Nat × Int) × Bytes) := [((1, 9), [9, 9]), ((1, 2), [2]), ((2, 5), [0]), ((1, 5), [5, 5, 5])]
+    partNumbers [some 2, some 5, some 9] = some [2, 5, 9] ∧ outOfOrder [2, 5, 9] = false ∧
+    partFiles 1 parts [2, 5, 9] = some [(2, [2]), (5, [5, 5, 5]), (9, [9, 9])] ∧
+    outOfOrder [5, 2] = true ∧ outOfOrder [2, 2] = true ∧ partFiles 1 parts [2, 3] = none ∧
+    partNumbers [some 2, none] = none := by decide
 
 /-- abort_multipart_upload: only by the creator; the upload is gone; of an upload that does not exist — at all, or under this
     bucket and key (41e1cf2; before, an upload could be aborted under any key: fs:upload-not-bound-to-key) — `NoSuchUpload` on
@@ -508,5 +538,35 @@ example :
 example : Good (run H0 4096 {} (demo.take 25)).1 (demo.getD 25 .listBuckets) ∧
     (run H0 4096 {} (demo.take 28)).2.drop 25 = [.err .InvalidPart, .part (some (etagOf H0 [5])), .err .EntityTooSmall] ∧
     (alLookup 1 (run H0 4096 {} (demo.take 28)).1.uploads).isSome = true := by decide
+
+/-- every part list is inside `Good` (fa59617, a00e4e8; before, only `1, 2, …, m` was), is answered with the store's code in
+    the store's order and, when refused, leaves the upload in place: on an upload that holds the parts 9, 2, 5 — no part
+    list, an empty one (also for an upload that does not exist), a part without a number: `MalformedXML`; unordered or
+    repeated numbers: `InvalidPartOrder` (also when a listed part does not exist); a part that was never uploaded:
+    `InvalidPart`; the gapped list 2, 5, 9, whose parts other than the last are small: `EntityTooSmall`; the single part 9
+    (a list that does not start at 1) completes to that part's content -/
+example :
+    let pre : List Op := [.createBucket bka, .createMultipartUpload alice bka kA none,
+      .uploadPart alice bka kA (some 1) 9 [9, 9], .uploadPart alice bka kA (some 1) 2 [2],
+      .uploadPart alice bka kA (some 1) 5 [5]]
+    let tries : List Op := [.completeMultipartUpload alice bka kA (some 1) none,
+      .completeMultipartUpload alice bka kA (some 1) (some []),
+      .completeMultipartUpload bob bka kA (some 7) (some []),
+      .completeMultipartUpload alice bka kA (some 1) (some [some 2, none]),
+      .completeMultipartUpload alice bka kA (some 1) (some [some 5, some 2]),
+      .completeMultipartUpload alice bka kA (some 1) (some [some 2, some 2]),
+      .completeMultipartUpload alice bka kA (some 1) (some [some 3, some 2]),
+      .completeMultipartUpload alice bka kA (some 1) (some [some 2, some 3]),
+      .completeMultipartUpload alice bka kA (some 1) (some [some (-1), some 2]),
+      .completeMultipartUpload alice bka kA (some 1) (some [some 2, some 5, some 9]),
+      .listParts alice bka kA (some 1),
+      .completeMultipartUpload alice bka kA (some 1) (some [some 9]),
+      .getObject bka kA none]
+    GoodRun H0 4096 {} (pre ++ tries) ∧
+    (run H0 4096 {} (pre ++ tries)).2.drop 5 =
+      [.err .MalformedXML, .err .MalformedXML, .err .MalformedXML, .err .MalformedXML, .err .InvalidPartOrder,
+       .err .InvalidPartOrder, .err .InvalidPartOrder, .err .InvalidPart, .err .InvalidPart, .err .EntityTooSmall,
+       .parts [(2, 1), (5, 1), (9, 2)], .completed (some (etagOf H0 [9, 9])),
+       .get [9, 9] 2 none (some (etagOf H0 [9, 9])) [] {}] := by decide
 
 end S3V.C18
